@@ -26,7 +26,7 @@ class C01(common.Prop):
     RULE = ("structured poses over the C01 space (1..4 components, 0..k points, names from all four UTF-8 length classes, "
             "limbs/colours, F,P incl. 0, D 1..4, float32 bit-pattern classes, float64 inputs) with ~25% carrying one "
             "unrepresentable/edge feature; each case is written, and read back under three header-memo states; "
-            "non-trivial = write accepted by the implementation or rejected for a reason other than rank; distinct by content hash")
+            "non-trivial = write accepted by the implementation or rejected for a reason other than rank; distinct by content hash " "Header numbers as Python ints or NumPy integer arrays / scalars; limb and colour words with the top bit set; tiny non-zero confidences; header objects carrying version 0.0 / 0.1 / 0.3; body arrays plain / unmasked / partially masked / non-contiguous; four memo states (empty, same, other, version twin).")
     TRUSTED = ["Coq 8.16.1 kernel (UTF-8 round trip proved by case analysis + lia, no enumeration; vm_compute only in examples)", "harness/translate_py.py (fail-closed ast translator)",
                "extraction: ExtrOcamlBasic only; runner/driver.ml", "harness/posegen.py canonicalisers (NaN -> one word; errors -> one class)"]
     ASSUMPTIONS = ["CPython struct / bytes.decode / numpy astype(float32) behave as modelled in base/F32.v, base/Utf8.v (sampled by the correspondence)",
